@@ -629,7 +629,16 @@ class _Matches:
                 if best is None or n.lineno > best.lineno:
                     best = n
         if best is not None:
-            return self.pattern_of_call(best.value)
+            v = best.value
+            # `P.search(a) or Q.search(b)` / `P.search(a) if c else Q.search(b)`: the match comes from one of them
+            alts = v.values if isinstance(v, ast.BoolOp) and isinstance(v.op, ast.Or) else [v.body, v.orelse] if isinstance(v, ast.IfExp) else [v]
+            out = []
+            for a in alts:
+                ps = self.pattern_of_call(a)
+                if not ps:
+                    return None
+                out += ps
+            return out
         return None
 
 
@@ -655,6 +664,56 @@ def _group_language(matches: "_Matches", e: ast.AST):
             minw = w if minw is None else min(minw, w)
         return chars, minw or 0
     return None
+
+
+def _fromhex_proof(matches: "_Matches", e: ast.AST):
+    """bytes.fromhex(<m>.group(0).replace(L, "")) cannot raise when every pattern that produced <m> is a repeat (at least once) of
+    the literal L followed by an even number of hex-digit positions: what is left after removing L is pairs of hex digits."""
+    import re._parser as sp  # type: ignore
+
+    if not (isinstance(e, ast.Call) and isinstance(e.func, ast.Attribute) and e.func.attr == "replace" and len(e.args) == 2 and isinstance(e.args[1], ast.Constant) and e.args[1].value == ""):
+        return None
+    lit = matches.ctx.folder.fold(matches.fi.module, e.args[0])
+    g = e.func.value
+    if not (isinstance(lit, str) and lit and isinstance(g, ast.Call) and isinstance(g.func, ast.Attribute) and g.func.attr == "group" and isinstance(g.func.value, ast.Name)
+            and ((len(g.args) == 1 and isinstance(g.args[0], ast.Constant) and g.args[0].value == 0) or not g.args)):
+        return None
+    pats = matches.patterns(g.func.value.id, e)
+    if not pats:
+        return None
+
+    def flat(items):
+        out = []
+        for op, av in items:
+            if op is sp.SUBPATTERN:
+                out += flat(av[3])
+            elif op in (sp.MAX_REPEAT, sp.MIN_REPEAT) and av[0] == av[1]:
+                out += flat(av[2]) * av[0]
+            else:
+                out.append((op, av))
+        return out
+
+    for (pt, fl) in pats:
+        try:
+            tree = list(sp.parse(pt, fl))
+        except Exception:
+            return None
+        top = flat(tree)
+        if not (len(top) == 1 and top[0][0] in (sp.MAX_REPEAT, sp.MIN_REPEAT) and top[0][1][0] >= 1):
+            return None
+        unit = flat(top[0][1][2])
+        head, rest = unit[:len(lit)], unit[len(lit):]
+        if [chr(av) if op is sp.LITERAL else None for op, av in head] != list(lit):
+            return None
+        if len(rest) % 2 or not rest:
+            return None
+        for it in rest:
+            cs, w = _charset([it])
+            if cs is None or w != 1 or not cs <= _HEX:
+                return None
+        if any(ch in _HEX for ch in lit):
+            return None
+    return f"whole match is ({lit!r} + {len(rest)} hex digits)+ : pairs of hex digits remain"
 
 
 def _enclosing_handlers(fn_node: ast.AST, target: ast.AST) -> list[str]:
@@ -742,6 +801,8 @@ def rule_fallback(ctx: Ctx) -> RuleReport:
                     if lang is not None and lang[0] <= _HEX and lang[1] >= 1:
                         import re._parser as sp  # noqa
                         proof = "two hex digits"
+            elif api in ("bytes.fromhex", "bytearray.fromhex") and c.args:
+                proof = _fromhex_proof(binds, c.args[0])
             elif api == "decode(strict)":
                 # x.encode(enc, ..).decode(same enc, ..) round trips and str-only helpers are not byte decoders of document data
                 if isinstance(c.func.value, ast.Call) and isinstance(c.func.value.func, ast.Attribute) and c.func.value.func.attr == "encode":
@@ -970,6 +1031,102 @@ def rule_bytes(ctx: Ctx) -> RuleReport:
             rep.ok({"rtf_separator": kw, "becomes": repr(tab[kw])})
         else:
             rep.fail(Finding("C02-BYTES", RTF, "_RtfParser.SPECIAL_CHARS", f"\\{kw} -> {tab.get(kw)!r}", f"the RTF control word \\{kw} ends a stretch of text (paragraph, line, table cell or row) but is not turned into white space: the pieces on both sides are glued into one token that is not in the document ('AAA\\cell BBB' -> 'AAABBB')"))
+    # (k) RTF: a \'xx escape is a byte of the document's ANSI code page (\ansicpg); chr(int(xx, 16)) reads it as Latin-1, which turns every
+    # Cyrillic / Greek / Central European letter into mojibake and 0x80..0x9F (quotes, dashes, euro in cp1252) into C1 controls
+    rm = ctx.p.module(RTF)
+    n_hex_decoded = 0
+    seen_k: set[int] = set()
+    for fi in sorted(rm.functions.values(), key=lambda f: -f.qual.count(".")):
+        binds = _Matches(ctx, fi)
+        for c in ast.walk(fi.node):
+            if id(c) in seen_k:
+                continue
+            seen_k.add(id(c))
+            if isinstance(c, ast.Call) and dotted(c.func) == "chr" and c.args and isinstance(c.args[0], ast.Call) and dotted(c.args[0].func) == "int" and len(c.args[0].args) == 2 \
+                    and isinstance(c.args[0].args[1], ast.Constant) and c.args[0].args[1].value == 16:
+                # (hex in the text stream of an RTF document always denotes a byte: there is no other use of chr(int(.., 16)) in the reader)
+                if True:
+                    rep.fail(Finding("C02-BYTES", RTF, fi.qual, "hex escape as Latin-1: " + anorm(c, fi.node), f"`{short(c, 50)}` turns the byte of a \\'xx escape into the character with the same number (Latin-1); the byte belongs to the document's \\ansicpg code page: 'Привет' written by WordPad (\\ansicpg1251) comes out as 'Ïðèâåò', and \\'92 (cp1252 apostrophe) as a C1 control character", line=c.lineno))
+            if isinstance(c, ast.Call) and isinstance(c.func, ast.Attribute) and c.func.attr == "decode" and isinstance(c.func.value, ast.Call) and (dotted(c.func.value.func) or "") in ("bytes.fromhex", "bytes"):
+                n_hex_decoded += 1
+                from sa.rules.c04 import _codec_domain
+
+                dom = _codec_domain(ctx, rm, fi, c.args[0]) if c.args else None
+                # when the codec is a parameter, every caller must hand over the declared code page
+                params = [a.arg for a in fi.node.args.args]
+                lame = []
+                if c.args and isinstance(c.args[0], ast.Name) and c.args[0].id in params:
+                    k_ = params.index(c.args[0].id)
+                    for g in rm.functions.values():
+                        for cc in ast.walk(g.node):
+                            if isinstance(cc, ast.Call) and isinstance(cc.func, ast.Name) and cc.func.id == fi.name and len(cc.args) > k_:
+                                d2 = _codec_domain(ctx, rm, g, cc.args[k_])
+                                if d2 is None or "cp*" not in d2:
+                                    lame.append((g, cc, d2))
+                if lame:
+                    seen_l = set()
+                    for g, cc, d2 in lame:
+                        if id(cc) in seen_l:
+                            continue
+                        seen_l.add(id(cc))
+                        rep.fail(Finding("C02-BYTES", RTF, g.qual.split(".<locals>")[0], "hex escapes decoded with " + (",".join(sorted(d2)) if d2 else "an unknown codec"), f"`{short(cc, 60)}` decodes the \\'xx bytes with {sorted(d2) if d2 else 'a codec that is not'} the code page the document declares (\\ansicpg): text in any other code page is mojibake", line=cc.lineno))
+                elif dom is not None and "cp*" in dom:
+                    rep.ok({"rtf_hex_escapes": f"{fi.qual}: decoded with the \\ansicpg code page", "codec_in": sorted(dom)})
+                else:
+                    rep.fail(Finding("C02-BYTES", RTF, fi.qual, "hex escapes decoded with " + (",".join(sorted(dom)) if dom else "an unknown codec"), f"`{short(c, 60)}` does not decode the \\'xx bytes with the code page the document declares (\\ansicpg): text in any other code page is mojibake", line=c.lineno))
+    if n_hex_decoded == 0 and not any(f.construct.startswith("hex escape as Latin-1") for f in rep.findings):
+        raise AnalysisError("C02-BYTES: no site that decodes RTF \\'xx escapes was recognised")
+    # (l) RTF: \uN is followed by \ucN fallback characters (default one: '?', a plain character or a \'xx escape) that are part of the escape.
+    # Every site that turns a \uN match into a character continues after the fallback, through the helper that skips `count` of them.
+    skippers = {f.name for f in rm.functions.values() if "." not in f.qual and any(isinstance(n, ast.For) and isinstance(n.iter, ast.Call) and dotted(n.iter.func) == "range" and n.iter.args
+                and isinstance(n.iter.args[0], ast.Name) and n.iter.args[0].id in {a.arg for a in f.node.args.args} for n in walk_own(f.node))
+                and any(isinstance(c, ast.Call) and isinstance(c.func, ast.Attribute) and c.func.attr == "match" for c in ast.walk(f.node))}
+    n_uni = 0
+    seen_sites: set[int] = set()
+    for fi in sorted(rm.functions.values(), key=lambda f: -f.qual.count(".")):
+        binds = _Matches(ctx, fi)
+        for c in ast.walk(fi.node):
+            if not (isinstance(c, ast.Call) and dotted(c.func) == "chr" and c.args and isinstance(c.args[0], ast.BinOp) and isinstance(c.args[0].op, ast.BitAnd)) or id(c) in seen_sites:
+                continue
+            seen_sites.add(id(c))
+            g = c.args[0].left
+            g = g.args[0] if isinstance(g, ast.Call) and dotted(g.func) == "int" and g.args else g
+            if not (isinstance(g, ast.Call) and isinstance(g.func, ast.Attribute) and g.func.attr == "group" and isinstance(g.func.value, ast.Name)):
+                continue
+            pats = binds.patterns(g.func.value.id, c) or []
+            if not any("\\\\u" in p_ for p_, _ in pats):
+                continue
+            n_uni += 1
+            mv = g.func.value.id
+            cont = [k for k in ast.walk(fi.node) if isinstance(k, ast.Call) and isinstance(k.func, ast.Name) and k.func.id in skippers and any(norm(a) == f"{mv}.end()" for a in k.args)]
+            zero = [k for k in cont if len(k.args) >= 3 and isinstance(k.args[2], ast.Constant) and k.args[2].value == 0]
+            if cont and not zero:
+                rep.ok({"rtf_unicode_escape": f"{fi.qual}: {short(c, 40)}", "continues_after": short(cont[0], 60)})
+            else:
+                rep.fail(Finding("C02-BYTES", RTF, fi.qual, "fallback of \\uN kept: " + anorm(c, fi.node), f"after `{short(c, 50)}` the scan does not skip the fallback character(s) that follow the escape: Word writes '\\u1055\\'cf' (Unicode value + ANSI fallback), so every non-Latin character is followed by a spurious one ('ПÏрð'), and '\\u8211-' gives two dashes", line=c.lineno))
+    if n_uni < 2:
+        raise AnalysisError(f"C02-BYTES: only {n_uni} sites that decode \\uN escapes found in the RTF reader (2 confirmed)")
+    # (m) RTF: only \u followed by a number is a Unicode escape. A dispatch branch selected by the single letter that, when the number is
+    # missing, steps over just the backslash and that letter leaves the rest of the control word (\uc1 -> 'c1', \ul -> 'l', \up6 -> 'p6') as text
+    full = ctx.p.maybe_func(RTF, "_RtfParser._strip_rtf_full_with_pages")
+    if full is None:
+        raise AnalysisError("C02-BYTES: _RtfParser._strip_rtf_full_with_pages vanished")
+    for br in [n for n in walk_own(full.node) if isinstance(n, ast.If)]:
+        t = br.test
+        letter = None
+        for cmp_ in [x for x in ast.walk(t) if isinstance(x, ast.Compare) and len(x.ops) == 1 and isinstance(x.ops[0], ast.Eq) and isinstance(x.comparators[0], ast.Constant)]:
+            v = cmp_.comparators[0].value
+            if isinstance(v, str) and len(v) == 1 and v.isalpha():
+                letter = v
+        if letter is None:
+            continue
+        # the branch is taken on the letter alone (no match required in the test itself)
+        needs_match = any(isinstance(x, (ast.NamedExpr, ast.Call)) and "match" in norm(x) for x in ast.walk(t))
+        steps = [a for st in br.body for a in ast.walk(st) if isinstance(a, ast.AugAssign) and isinstance(a.op, ast.Add) and isinstance(a.value, ast.Constant) and a.value.value == 2]
+        if not needs_match and steps:
+            rep.fail(Finding("C02-BYTES", RTF, full.qual, f"\\{letter} branch drops 2 characters of a control word", f"the branch for `\\{letter}` is entered for every control word that starts with '{letter}'; when no number follows it advances by 2 (`{short(steps[0], 20)}`), so the rest of the word is emitted as text: \\uc1 gives 'c1', \\ul 'l', \\ulnone 'lnone', \\up6 'p6'", line=steps[0].lineno))
+        else:
+            rep.ok({"rtf_letter_branch": letter, "requires_number": needs_match})
     # (c) plain text: the detector judges the whole input; the text is what the detector decoded; lossy decoding only after it failed
     dd = ctx.p.func(PLAIN, "_detect_and_decode")
     rep.unit(dd.key)
